@@ -218,21 +218,9 @@ def run(ctx: Ctx) -> None:
             ctx.check(dom, "I1", f"{what} dominated by the depth test", loc(c), "", f"the {what} can be reached without passing the depth test")
     # (what else travels between nesting levels - a root directory, a cache - is not judged by its shape: the
     # evaluated scenarios below decide whether depth and root-relative resolution still hold)
-    # the text spliced in for an INCLUDE line is the result of the recursive call made for that line
-    splice_ok = True
-    splice_desc = []
-    parents = {}
-    for par in ast.walk(fn):
-        for ch in ast.iter_child_nodes(par):
-            parents[ch] = par
-    # the enumerate index of the loop over the lines
-    idx_vars = {n.target.elts[0].id for n in ast.walk(fn) if isinstance(n, ast.For) and isinstance(n.iter, ast.Call) and dotted(n.iter.func) == "enumerate" and isinstance(n.target, ast.Tuple) and isinstance(n.target.elts[0], ast.Name)}
-    for r in rec_calls:
-        st = parents.get(r.node)
-        direct = isinstance(st, ast.Assign) and len(st.targets) == 1 and isinstance(st.targets[0], ast.Subscript) and isinstance(st.targets[0].value, ast.Name) and isinstance(st.targets[0].slice, ast.Name) and st.targets[0].slice.id in idx_vars
-        splice_desc.append(norm(st)[:70] if st is not None else "?")
-        splice_ok = splice_ok and direct
-    ctx.check(splice_ok and bool(splice_desc), "I1", "replacement text is the recursive expansion of that very line", loc(fn), "", f"the result of the recursive call is used as {splice_desc}: it is not stored, as it is, under the index of the INCLUDE line it was made for")
+    # (whether the text spliced in for an INCLUDE line is the expansion made for that very line is decided by
+    # the evaluated scenarios - order / splice in I2, the file re-reached one level deeper below - not by the
+    # form of the statement that stores it)
     # evaluated depth bound: a chain of exactly LIMIT nested files expands, one more raises ValueError
     S1 = _Scenarios(e)
     chain = lambda n: {vpath(f"f{k}.map", "/r/main.map"): (S1.text(f"F{k}a", f"INCLUDE f{k + 1}.map", f"F{k}b") if k < n else S1.text(f"F{k}")) for k in range(1, n + 1)}
